@@ -1,6 +1,6 @@
 (* Comparators and probe-level models of the C20 correspondence (harness/props/c20.py). *)
 From Coq Require Import ZArith List Bool String.
-From FrameModel Require Import Num.QcTac Geometry.Rect Cases.Cmp Cases.CmpAlloc Stog.CreateStog History.State.
+From FrameModel Require Import Num.QcTac Geometry.Rect Cases.Cmp Cases.CmpAlloc Stog.CreateStog History.State History.StateFacts.
 From FrameModel Require Alloc.Alloc Die.DieModel.
 Import ListNotations.
 Open Scope Qc_scope.
@@ -68,37 +68,9 @@ Definition alloc_trace (eps aeps q : Qc) (ops : list Alloc.op) (cells : list All
 Definition alloc_same (e1 a1 e2 a2 q : Qc) (ops : list Alloc.op) (cells : list Alloc.cell) : bool :=
   list_eqb (opt_eqb cells_eqb) (alloc_trace e1 a1 q ops cells) (alloc_trace e2 a2 q ops cells).
 
-(* robust along the run (evaluated under the lower end of the band; by the eps_insensitive theorems the run is
-   the same under every tolerance of the band as long as each step is robust) *)
-Definition cells_robust (lo hi alo ahi : Qc) (cs : list Alloc.cell) : bool :=
-  robust_pairs alo ahi (map Alloc.crect cs) && robust_bounds lo hi (map Alloc.crect cs).
-Definition op_result_cells (t : Qc) (q : Qc) (lo : Qc) (o : Alloc.op) (cs : list Alloc.cell) : option (list Alloc.cell) :=
-  match o with
-  | Alloc.OpRefine th l => match l with O => None | _ => Alloc.refine_cells th l cs end
-  | Alloc.OpUniform => if Nat.eqb (Alloc.max_depth cs) (Alloc.min_depth cs) then Some cs else Alloc.uniform_cells cs
-  | Alloc.OpGriddify => Alloc.griddify_cells lo q cs
-  end.
-Fixpoint steps_robust (lo hi alo ahi q : Qc) (ops : list Alloc.op) (cs : list Alloc.cell) : bool :=
-  match ops with
-  | [] => true
-  | o :: r =>
-      cells_robust lo hi alo ahi cs &&
-      match op_result_cells 0 q lo o cs with
-      | None => true
-      | Some new =>
-          cells_robust lo hi alo ahi new &&
-          match Alloc.mk_allocation alo new with
-          | Some cs' => steps_robust lo hi alo ahi q r cs'
-          | None => true
-          end
-      end
-  end.
+(* robust along the run: the predicate of C20_eps_insensitive_alloc_run *)
 Definition alloc_robust (lo hi alo ahi q : Qc) (ops : list Alloc.op) (cells : list Alloc.cell) : bool :=
-  cells_robust lo hi alo ahi cells &&
-  match Alloc.mk_allocation alo cells with
-  | Some cs => steps_robust lo hi alo ahi q ops cs
-  | None => true
-  end.
+  robust_alloc lo hi alo ahi q ops cells.
 
 (* ---- die ---- *)
 Definition reason_eqb (a b : DieModel.reason) : bool :=
@@ -117,20 +89,5 @@ Definition result_eqb (a b : DieModel.result) : bool :=
   end.
 Definition die_same (e1 a1 e2 a2 deps tin : Qc) (d : DieModel.desc) : bool :=
   result_eqb (DieModel.die_model e1 a1 deps tin d) (DieModel.die_model e2 a2 deps tin d).
-(* the rectangles whose coordinates are gathered, and the rectangles whose pairwise overlap is checked *)
-Definition die_robust (lo hi alo ahi deps tin : Qc) (d : DieModel.desc) : bool :=
-  match DieModel.parse d with
-  | None => true
-  | Some (w, h, regions) =>
-      let ins := DieModel.inputs regions (DieModel.d_fixed d) in
-      robust_bounds lo hi (ins ++ [DieModel.die_rect w h]) &&
-      match DieModel.die_model lo alo deps tin d with
-      | DieModel.Accept g s b f => robust_pairs alo ahi (s ++ g ++ b ++ f)
-      | DieModel.Reject _ =>
-          let xs := DieModel.die_xs lo w h ins in
-          let ys := DieModel.die_ys lo w h ins in
-          let gs := DieModel.die_cover lo d Cover.greedy_cover in
-          robust_pairs alo ahi (DieModel.specialised regions ++ map (DieModel.ground_of xs ys) gs ++
-                                DieModel.blockages regions ++ DieModel.d_fixed d)
-      end
-  end.
+(* the predicate of C20_eps_insensitive_die_model *)
+Definition die_robust (lo hi alo ahi deps tin : Qc) (d : DieModel.desc) : bool := robust_die lo hi alo ahi d.
